@@ -43,6 +43,20 @@ theorem lget_lset {κ β : Type} [DecidableEq κ] (m : Bucket κ (List β)) (k x
   by_cases h : x = k <;> simp [h]
 
 
+/-- case analysis on an option as a plain function (statements with `match` do not rewrite well:
+every `match` is its own auxiliary definition) -/
+def ocases {α β : Type} (o : Option α) (n : β) (f : α → β) : β :=
+  match o with
+  | some x => f x
+  | none => n
+
+@[simp] theorem ocases_none {α β : Type} (n : β) (f : α → β) : ocases none n f = n := rfl
+@[simp] theorem ocases_some {α β : Type} (x : α) (n : β) (f : α → β) : ocases (some x) n f = f x := rfl
+
+theorem ocases_isSome {α β : Type} (o : Option α) (n s : β) :
+    ocases o n (fun _ => s) = if o.isSome = true then s else n := by
+  cases o <;> rfl
+
 /-! ### association lists -/
 
 theorem alook_eq_some_of_mem {β : Type} (l : List (Nat × β)) (k : Nat) (v : β)
